@@ -13,7 +13,7 @@ def load_known(pid):
             data = json.load(f)
     except FileNotFoundError:
         return []
-    return [e for e in data.get('findings', []) if e.get('property') == pid]
+    return [e for e in data.get('findings', []) if e.get('property') == pid or pid in e.get('also', [])]
 
 
 def write_replay(pid, name, obj):
@@ -48,14 +48,20 @@ class Ctx:
         self.exhaustive_runs = 0
 
 
-def excused(prop, known_open, ops_prefix, impl_line, model_line):
+def excused(prop, known_open, ops_prefix, impl_line, model_line, spec_line=None):
     """a property deviation is a known finding iff it lies in a recorded class and the
     implementation still behaves exactly as the code-shaped model (same defect)"""
     if impl_line != model_line:
         return None
     for e in known_open:
         cls = prop.classes.get(e.get('class'))
-        if cls and cls(ops_prefix):
+        if not cls:
+            continue
+        try:
+            hit = cls(ops_prefix, impl_line, spec_line)
+        except TypeError:
+            hit = cls(ops_prefix)
+        if hit:
             return e
     return None
 
@@ -78,7 +84,7 @@ def analyse(ctx, label, ops, known_open):
             ok_o = prop.oracle(ops[i], st.impl[i], st.spec[i])
             ok_t = prop.tie_eq(ops[i], st.impl[i], st.model[i])
             if not ok_o:
-                k = excused(prop, known_open, ops[s:i + 1], st.impl[i], st.model[i])
+                k = excused(prop, known_open, ops[s:i + 1], st.impl[i], st.model[i], st.spec[i])
                 if k is not None:
                     hit_known.setdefault(k['id'], 0)
                     hit_known[k['id']] += 1
@@ -91,7 +97,9 @@ def analyse(ctx, label, ops, known_open):
             i, kind = ep_bad
             nviol += 1
             if nviol <= 3:
-                report_counterexample(ctx, label, ops[s:i + 1], kind, known_open)
+                report_counterexample(ctx, label, ops[s:i + 1], kind, known_open,
+                                      orig={'op': ops[i], 'impl': st.impl[i] if i < len(st.impl) else None,
+                                            'spec': st.spec[i], 'model': st.model[i]})
             if kind == 'crash':
                 break
         elif ep_tie is not None:
@@ -133,7 +141,7 @@ def analyse(ctx, label, ops, known_open):
     return nviol
 
 
-def report_counterexample(ctx, label, ep_ops, kind, known_open):
+def report_counterexample(ctx, label, ep_ops, kind, known_open, orig=None):
     prop = ctx.prop
 
     def fails(cand):
@@ -142,17 +150,20 @@ def report_counterexample(ctx, label, ep_ops, kind, known_open):
             if i >= len(st.impl):
                 return True
             if not prop.oracle(cand[i], st.impl[i], st.spec[i]):
-                if excused(prop, known_open, cand[:i + 1], st.impl[i], st.model[i]) is None:
+                if excused(prop, known_open, cand[:i + 1], st.impl[i], st.model[i], st.spec[i]) is None:
                     return True
         return False
-    small = corr.shrink(ep_ops, fails) if len(ep_ops) > 2 else ep_ops
+    # a failure that does not reproduce on its own episode is reported as it was observed
+    reproducible = fails(ep_ops)
+    small = corr.shrink(ep_ops, fails) if (reproducible and len(ep_ops) > 2) else ep_ops
     st = corr.run_streams(small)
     name = hashlib.blake2b('\n'.join(small).encode(), digest_size=5).hexdigest()
     if any(name in p for p, _ in ctx.violations):
         return
     path = write_replay(prop.pid, name, {
         'property': prop.pid, 'kind': 'counterexample', 'how': kind, 'run': label, 'seed': ctx.seed,
-        'ops': small, 'expected_spec': st.spec, 'actual_impl': st.impl, 'model': st.model, 'crash': st.crashed})
+        'ops': small, 'expected_spec': st.spec, 'actual_impl': st.impl, 'model': st.model, 'crash': st.crashed,
+        'reproducible': reproducible, 'first_observed': orig})
     ctx.violations.append((path, ''))
 
 
@@ -185,7 +196,7 @@ def do_replay(prop, path):
         flag = ''
         if not o:
             flag = '   <-- property oracle fails'
-            if i < len(st.impl) and excused(prop, known_open, ops[:i + 1], impl, st.model[i]) is not None:
+            if i < len(st.impl) and excused(prop, known_open, ops[:i + 1], impl, st.model[i], st.spec[i]) is not None:
                 flag = '   (known finding)'
             else:
                 bad = True
